@@ -47,7 +47,7 @@ func (c07) Info() core.Info {
 			"pointer_field is 0 (the statement does not quantify over pointer_field for the PAT) and program numbers are distinct",
 			"after an injected reader error ReadPAT may return that error or the exact answer; nothing else is relaxed",
 		},
-		RequiredProbes: []string{"entries_0", "entries_1_program", "entries_1_network", "entries_ge3", "entries_42", "pid_gt_255", "pat_after_foreign", "no_pat", "eof_inside_pat", "one_byte_reads", "second_pat_ignored", "pat_with_af"},
+		RequiredProbes: []string{"entries_0", "entries_1_program", "entries_1_network", "entries_ge3", "entries_42", "pid_gt_255", "pat_after_foreign", "no_pat", "eof_inside_pat", "one_byte_reads", "second_pat_ignored", "pat_with_af", "caller_scribbles_program_map"},
 	}
 }
 
@@ -199,6 +199,21 @@ func (c07) Exec(script interface{}, c *core.Ctx) {
 		}
 		if !mapEq(pm, wantMap) {
 			c.Fail("program_map", carrier+":program_map", fmtMap(pm), fmtMap(wantMap))
+			return false
+		}
+		// the caller owns the returned map: emptying and polluting it must not change what
+		// the PAT answers afterwards
+		for k := range pm {
+			delete(pm, k)
+		}
+		pm[7777] = 0x1234
+		c.Probe("caller_scribbles_program_map")
+		var pm2 map[int]int
+		if !c.Call("pat.ProgramMap(again)", func() { pm2 = p.ProgramMap() }) {
+			return false
+		}
+		if !mapEq(pm2, wantMap) {
+			c.Fail("program_map", carrier+":program_map_after_caller_edit", fmtMap(pm2), fmtMap(wantMap))
 			return false
 		}
 		if !c.Call("pat.SPTSpmtPID", func() { spid, serr = p.SPTSpmtPID() }) {
